@@ -1,6 +1,6 @@
 SPECIFICATION Spec
 CONSTANTS
-  CfgNames = {"one", "sizes", "wts", "ties", "zero", "dup", "lead0", "fam", "mix3"}
+  CfgNames = {"one", "sizes", "wts", "ties", "zero", "dup", "lead0", "fam", "allzero", "mix3"}
   LibVers = {0, 1, 2, 3, 4}
   Fams = {4, 6}
   NSel = 1
@@ -9,5 +9,5 @@ CONSTANTS
   RNG = "local"
   AddrBytes = "fill"
 VIEW view
-INVARIANTS TypeOK Contained WellFormed RandPortFromSubnet Pure UnknownGenerationFails NoSpuriousError ZeroWeightNeverChosen
+INVARIANTS TypeOK Contained WellFormed RandPortFromSubnet Pure UnknownGenerationFails NoSpuriousError ZeroWeightNeverChosen NoWeightFails
 CHECK_DEADLOCK FALSE
